@@ -793,6 +793,7 @@ func ExtraC11Corpus() []*Scenario {
 			coll = append(coll, &Scenario{Name: "c11/handler-serves-" + typ + "-" + shape, Kind: ap.Both, Entry: "Handler", URL: id, Tweak: func(a *ap.App) { a.PutDoc(doc) }})
 		}
 	}
+	coll = append(coll, TypeCorpus()...)
 	return append(coll, []*Scenario{
 		{Name: "c11/social-only-get-inbox", Kind: ap.SocialOnly, Entry: "GetInbox", URL: inbox(Alice)},
 		{Name: "c11/federating-only-get-outbox", Kind: ap.FederatingOnly, Entry: "GetOutbox", URL: outbox(Alice)},
